@@ -238,7 +238,7 @@ def check_star_batch(ctx, batch) -> None:
             any_binds = False
             any_nonempty_binds = False
             n_exp = 0
-            err_classes = set()
+            err_classes = []  # error class of the first failing (smallest) expansion
             for xs, t, kw in expansions(sig, used):
                 n_exp += 1
                 env = dict(ns)
@@ -248,7 +248,8 @@ def check_star_batch(ctx, batch) -> None:
                     ok = True
                 except TypeError as e:
                     ok = False
-                    err_classes.add(py_class(str(e)))
+                    if not err_classes:
+                        err_classes.append(py_class(str(e)))
                 if ok:
                     any_binds = True
                     if all(v for v in (xs, t, kw) if v is not None):
@@ -268,7 +269,7 @@ def check_star_batch(ctx, batch) -> None:
                 if diagnosed:
                     key = f"star|{bad}|pa:{pa_class([d.description for d in ds])}"
                 else:
-                    key = f"star|{bad}|py:{'+'.join(sorted(err_classes))}"
+                    key = f"star|{bad}|py:{'+'.join(err_classes)}"
                 what = f"{sig.render('f')} ; call {render_star_call('f', npos, form, kws)} with xs: list[int], t: tuple[int, ...], kw: dict[str, int]: {bad}; pyanalyze: {[d.short() for d in ds]}"
                 ctx.violation(key, what, {"kind": "star", "sig": sig_to_json(sig), "npos": npos, "form": form, "used": list(used), "kws": list(kws)})
     finally:
